@@ -136,7 +136,9 @@ def gen_scenario(rng, index):
             "epi": rng.random(), "family": family,
             # a long-lived process: this many small distinct texts are compiled (sequentially) before the threads start, so that
             # bounded process-wide caches are full and their eviction paths run during the race
-            "preload": rng.choice([0] * 16 + [150, 300]) if family != "cold" else 0}
+            "preload": rng.choice([0] * 16 + [150, 300]) if family != "cold" else 0,
+            # instruction-level pre-emption inside the vendored sly lexer / parser as well (small workloads only)
+            "deep_sly": family in ("race", "cold") and rng.random() < 0.12}
 
 
 # ---------------------------------------------------------------------------
@@ -230,6 +232,8 @@ class Runner:
 
     def _run(self, sc, seed, decisions):
         texts = sc["texts"]
+        if sc.get("deep_sly"):
+            threads.instrument_sly()
         cold = sc.get("family") == "cold" and not sc["shared"]
         try:
             judged = None if cold else self.judge(sc)
